@@ -1,3 +1,4 @@
+import Gtree.Lemmas.SourceRefines
 import Gtree.Model.Api
 import Gtree.Lemmas.MkdirVerify
 import Gtree.Lemmas.MkInterleave
@@ -154,3 +155,12 @@ theorem C08_mkdir_then_verify_massive (f : Fmt) (exts : List Bytes) (ts : List B
   exact (verifyRoots_none_ext hF (key ts) strict _).mpr hseq
 end Gtree
 
+namespace Gtree
+/-- Tie to the source: the verdict on one root — fail iff a required path is missing or, strictly, an extra entry
+    exists — is `defaultVerifierSimple.handleErr` (simple_tree_verifier.go, translated on this run; the massive
+    verifier's workers call the same method). -/
+theorem C08_verdict_is_the_source (strict : Bool) (dir : Bytes) (extra missing : List Bytes) :
+    Src.defaultVerifierSimple.handleErr ⟨strict, dir⟩ extra missing =
+      if (strict && !extra.isEmpty) || !missing.isEmpty then some (Src.Err.verifyError strict extra missing) else none :=
+  verifier_handleErr_src strict dir extra missing
+end Gtree
